@@ -110,7 +110,7 @@ fn check_mutant(seed: u64) -> Item {
     let mut what = Vec::new();
     for _ in 0..nmut {
         let f = rng.pick(&built.fields).clone();
-        let vals = elf::boundary_values(img.len(), f.size);
+        let vals = if rng.chance(1, 3) { elf::relational_values(&built.bytes, &built.fields, f.size) } else { elf::boundary_values(img.len(), f.size) };
         let v = if rng.chance(5, 6) { *rng.pick(&vals) } else { rng.next() };
         elf::set_field(&mut img, &f, v);
         what.push(format!("{}={:#x}", f.name, v));
@@ -145,7 +145,11 @@ fn single_field_sweep(bits64: bool, section_only: bool) -> Vec<Item> {
     let built = elf::build(&spec);
     let mut out = Vec::new();
     for f in &built.fields {
-        for v in elf::boundary_values(built.bytes.len(), f.size) {
+        let mut vals = elf::boundary_values(built.bytes.len(), f.size);
+        vals.extend(elf::relational_values(&built.bytes, &built.fields, f.size));
+        vals.sort();
+        vals.dedup();
+        for v in vals {
             let mut img = built.bytes.clone();
             elf::set_field(&mut img, f, v);
             let mut it = item(fnv(format!("sweep{bits64}{}{v}", f.name).as_bytes()), true);
@@ -347,10 +351,12 @@ pub fn run(rep: &mut Report, thorough: bool, n: u64, replay: Option<&str>) {
         items.extend(mutants);
         let rnd = crate::util::par_map(n / 4, |i| check_random_bytes(seed.wrapping_mul(1_000_000_021).wrapping_add(i)));
         items.extend(rnd);
-        for (b64, so) in [(true, false), (false, false), (true, true), (false, true)] {
-            items.extend(single_field_sweep(b64, so));
+        if !cfg!(miri) {
+            for (b64, so) in [(true, false), (false, false), (true, true), (false, true)] {
+                items.extend(single_field_sweep(b64, so));
+            }
         }
-        let files = collect_system_elfs(if thorough { 100_000 } else { 300 }, seed);
+        let files = if cfg!(miri) { Vec::new() } else { collect_system_elfs(if thorough { 100_000 } else { 300 }, seed) };
         let sys = crate::util::par_map(files.len() as u64, |i| check_system_file(&files[i as usize]));
         items.extend(sys);
     }
@@ -366,7 +372,7 @@ pub fn run(rep: &mut Report, thorough: bool, n: u64, replay: Option<&str>) {
             rep.sample(s);
         }
     }
-    if replay.is_none() {
+    if replay.is_none() && !cfg!(miri) {
         rep.require("build_ids_compared", 50);
         rep.require("sonames_compared", 20);
         rep.require("mutated_images", 100);
